@@ -155,6 +155,7 @@ func RaceWorker(args []string) {
 	verif.Reset(false, false)
 	app.VerifCommander = nil
 	app.VerifStopCtx = nil
+	app.VerifStopCtxOf = nil
 	app.VerifBackoff = func(name string, cancelled bool) time.Duration { return 5 * time.Millisecond }
 	yml := `processes:
   a:
